@@ -694,8 +694,52 @@ for op in G.BINOPS:
 for op in G.UNOPS:
     for a in GRID:
         toks_list.append(["(", op, "("] + G.pp_tokenize(a) + [")", ")", "<", "0"])
+n_pairs = len(toks_list)
+
+
+def cond_arm_family(full):
+    """EXHAUSTIVE small scope for the static type of the NOT-selected arm of ?: (`pre_expr_uns_p`): the arm
+    ranges over every operator shape (unary + - ~ !, every binary operator, nested ?:, a parenthesised constant
+    of every type class) x every signedness combination of its operands, and one level deeper (an operator
+    applied to such an arm); the selected arm is a negative signed value and the result is used where the
+    signedness is visible (> < / % >>).  Also with the conditional nested in the selected arm of another one."""
+    S, U = "2", "2u"
+    lits = ["5", "5u", "5l", "5ul", "5ll", "5ull", "0x7fffffff", "0x80000000", "0xffffffffffffffff",
+            "'a'", "L'a'", "u'a'", "U'a'"]
+    arms = [f"({l})" for l in lits]
+    for a in (S, U):
+        arms += [f"({op}{a})" for op in G.UNOPS]
+        for b in (S, U):
+            arms += [f"({a} {op} {b})" for op in G.BINOPS]
+            arms += [f"({c} ? {a} : {b})" for c in ("0", "1")]
+    deep = []
+    ops2 = G.BINOPS if full else ["<<", ">>", "+", "<", "&&", "&"]
+    for x in arms:
+        deep += [f"({op}{x})" for op in G.UNOPS]
+        for c in ("1", "1u"):
+            deep += [f"({x} {op} {c})" for op in ops2] + [f"({c} {op} {x})" for op in ops2]
+            if full:
+                deep += [f"({k} ? {x} : {c})" for k in ("0", "1")] + [f"({k} ? {c} : {x})" for k in ("0", "1")]
+    ctxs = ["{} > 0", "{} < 0", "{} / 2 == -1", "{} % 3 == -2", "({} >> 1) < 0"]
+    out = []
+
+    def put(arm, ctx_list):
+        for pos in (f"(1 ? -2 : {arm})", f"(0 ? {arm} : -2)", f"(1 ? (0 ? {arm} : -2) : 3)",
+                    f"(0 ? 3 : (1 ? -2 : {arm}))"):
+            for cx in ctx_list:
+                out.append(G.pp_tokenize(cx.format(pos)))
+    for x in arms:
+        put(x, ctxs)
+    for x in deep:
+        put(x, ctxs if full else ctxs[1:3])
+    return out, len(arms), len(deep)
+
+
+arm_exprs, n_arms, n_deep = cond_arm_family(not QUICK)
+toks_list += arm_exprs
+ifstats["cond_arm_family"] = {"exprs": len(arm_exprs), "arm_shapes": n_arms, "second_level_shapes": n_deep}
 n_grid = len(toks_list)
-while len(toks_list) < ND:
+while len(toks_list) < max(ND, n_grid + ND // 3):
     t = eg.tree(1 + ck.rng.below(3))
     toks_list.append(eg.render(t, full_parens=ck.rng.chance(1, 3)))
 expr_fails = []
@@ -703,7 +747,7 @@ CHD = 3000
 for k in range(0, len(toks_list), CHD):
     expr_fails += judge_exprs(toks_list[k:k + CHD], "generated")
 report_expr_fails(expr_fails)
-ck.stage("if-grid", n=len(toks_list), exhaustive_pairs=n_grid, t=round(time.time() - T0, 1))
+ck.stage("if-grid", n=len(toks_list), exhaustive_pairs=n_pairs, cond_arm_exhaustive=len(arm_exprs), t=round(time.time() - T0, 1))
 for t in toks_list[n_grid:n_grid + 3]:
     ck.sample({"family": "if-grid", "source": "#if " + " ".join(t)})
 
@@ -807,7 +851,8 @@ ck.cov["rule"] = ("token cases: random macro-definition sets + invocation texts 
                   "stringification with escapes and every white-space form, `# p` followed by a parameter, nested "
                   "#if/#elif/#else sections with macros and `defined`; a case counts as distinct non-trivial when its "
                   "source text is new, gcc and the spec accept it and at least one macro is defined. "
-                  "#if grid: every binary operator over pairs of boundary literals + random trees of depth <= 3 over "
+                  "#if grid: every binary operator over pairs of boundary literals + exhaustive ?: family (every operator shape "
+                  "x signedness combination, two levels, as the unselected arm; see cond_arm_family) + random trees of depth <= 3 over "
                   "the boundary grid; counted when C11 gives the expression a value")
 ck.cov["distribution"] = {"token_cases": stats, "families": fam_stats, "generator_features": gen_stats,
                           "if_grid": {k: v for k, v in ifstats.items()},
